@@ -107,7 +107,7 @@ class C13(Check):
         half = [0.5, 1, -0.5, 1.5, 0, 2, -1, 2.5]
         shifts = [0, 0.5, -0.5, 0.25, -0.25, 1]
         for _ in range(n_ops):
-            k = tape.weighted([6, 5, 4, 2, 2, 1, 2 if allow_mixture else 0, 1, 2 if allow_reset else 0], "kind")
+            k = tape.weighted([6, 5, 4, 2, 2, 1, 2 if allow_mixture else 0, 1, 3 if allow_reset else 0], "kind")
             q = qs[tape.draw(n, "q")]
             op = None
             if k == 0:
@@ -259,7 +259,7 @@ class C13(Check):
         sp = self.sp
         ctx.workload = "stabilizer"
         sut = ["ch-steps", "ch-act_on", "tableau-act_on", "simulate", "run", "stab-sampler", "clifford-state"][
-            tape.weighted([4, 3, 18, 2, 2, 2, 1], "sut")]
+            tape.weighted([4, 3, 18, 2, 3, 3, 1], "sut")]
         if sut == "clifford-state":
             return self._clifford_state(tape, ctx)
         allow_mixture = sut in ("simulate", "run", "ch-act_on", "tableau-act_on") and tape.chance(1, 3, "mixtures?")
@@ -282,6 +282,8 @@ class C13(Check):
             else:
                 cfg = qd.SimConfig("clifford" if sut == "run" else "stab-sampler", split=tape.chance(1, 3, "split?"))
                 reps = 1 + tape.draw(2 if bits <= 4 else 1, "reps")
+                if "reset" in feats and bits <= 4:
+                    reps = 2      # whether repetitions are independent samples shows only with two of them
                 points = 1
                 if bits * reps <= 4 and tape.chance(1, 3, "unparameterized-sweep?"):
                     points = 2      # run_sweep over a symbol the circuit does not use: independent samples
